@@ -62,6 +62,7 @@ var (
 	// the watched root since Reset fails
 	failReadAt int
 	reads      int
+	failShort  bool
 )
 
 // ErrInjected is what a call hit by FailAt returns.
@@ -80,6 +81,14 @@ func ReadCount() int {
 	mu.Lock()
 	defer mu.Unlock()
 	return reads
+}
+
+// FailShort decides what an injected fault does to a write: false = nothing is written, true = the first half of the
+// buffer reaches the file before the error is returned (a short write).
+func FailShort(on bool) {
+	mu.Lock()
+	failShort = on
+	mu.Unlock()
 }
 
 // FailAt makes the n-th (1-based) mutating call under the watched root fail with ErrInjected, once.
@@ -149,7 +158,7 @@ func Reset(watchRoot string, logging bool) {
 	count, armAt, armMode = 0, 0, 0
 	steps, pauseIn, pauseInFn = 0, 0, nil
 	matchKind, matchSuffix = "", ""
-	failAt, failReadAt, reads = 0, 0, 0
+	failAt, failReadAt, reads, failShort = 0, 0, 0, false
 	select {
 	case <-crashed:
 	default:
@@ -282,7 +291,7 @@ func step(kind, path, to string, mut bool) int {
 			hit = true
 		}
 		if failAt != 0 && count == failAt {
-			failAt, failReadAt, reads = 0, 0, 0
+			failAt, failReadAt, reads, failShort = 0, 0, 0, false
 			op.Kind += "!fault"
 			if logOn {
 				log = append(log, op)
@@ -337,6 +346,14 @@ type File struct{ *os.File }
 func (f *File) Write(p []byte) (int, error) {
 	switch step("write", f.Name(), "", true) {
 	case doFail:
+		mu.Lock()
+		short := failShort
+		mu.Unlock()
+		if short && len(p) > 1 {
+			// the kernel took part of the buffer before the error (ENOSPC, EFBIG, EIO in the middle of a write)
+			n, _ := f.File.Write(p[:len(p)/2])
+			return n, ErrInjected
+		}
 		return 0, ErrInjected
 	case doSkip:
 		return len(p), nil
@@ -349,6 +366,19 @@ func (f *File) Write(p []byte) (int, error) {
 	}
 	return f.File.Write(p)
 }
+
+// Read counts as a reading call: a read of an open file can fail like an open can.
+func (f *File) Read(p []byte) (int, error) {
+	if step("read", f.Name(), "", false) == doFail {
+		return 0, ErrInjected
+	}
+	return f.File.Read(p)
+}
+
+type readerOnly struct{ io.Reader }
+
+// WriteTo must not bypass Read.
+func (f *File) WriteTo(w io.Writer) (int64, error) { return io.Copy(w, readerOnly{f}) }
 
 type writerOnly struct{ io.Writer }
 
